@@ -10,6 +10,15 @@ if __name__ == "__main__":
     req = json.loads(sys.stdin.read())
     mod = importlib.import_module("probe_" + req["prop"])
     import replay
+    import signal
+
+    class _Timeout(BaseException):
+        pass
+
+    def _alarm(*a):
+        raise _Timeout()
+    signal.signal(signal.SIGALRM, _alarm)
+    per_case = int(req.get("per_case_timeout_s", 30))
     out = []
     for group in mod.groups(req.get("tier", "quick"), int(req.get("seed", 0))):
         t0 = time.time()
@@ -20,7 +29,13 @@ if __name__ == "__main__":
             for case in group["cases"]:
                 n += 1
                 try:
-                    res = replay.run(case)
+                    signal.alarm(per_case)
+                    try:
+                        res = replay.run(case)
+                    finally:
+                        signal.alarm(0)
+                except _Timeout:
+                    res = dict(reproduced=True, detail="the real code did not return within %d s (non-termination?)" % per_case)
                 except Exception as e:
                     if case.get("expect") == "raises":
                         continue
